@@ -145,7 +145,8 @@ def one_run(run, graph, seed, cipher, hashing):
                 ver.append('onlyPublicKdfFields')
             k = s.holders[u]
             events.append({'kind': 'key', 'name': 'key file of ' + u, 'verified': sorted(set(ver)),
-                           'nonces': [['user-key:' + hashlib.sha1(k.userkey).hexdigest()[:12], ko['private'][:k.cipher.nonce_bytes].hex(), hashlib.sha1(ko['private']).hexdigest()[:16]]],
+                           'nonces': ([['user-key:' + hashlib.sha1(k.userkey).hexdigest()[:12], ko['private'][:k.cipher.nonce_bytes].hex(), hashlib.sha1(ko['private']).hexdigest()[:16]]]
+                                      if isinstance(ko.get('private'), bytes) else []),
                            'canaries': scan(kf, needles)})
         # stdout of init / add-key (captured by the harness)
         for out in getattr(s.world, 'stdout_log', []):
